@@ -164,6 +164,24 @@ def main():
     sw = fn_body(engine_all, "expiration_cleanup_loop") or ""
     out.append("Definition sweeper_rechecks_stored_deadline : bool := %s." %
                ("true" if re.search(r"is_expired\(\)", sw) else "false"))
+    # lazy expiry before dispatch: which commands expire the whole database / all databases first
+    lz = fn_body(engine_all, "expire_before_command") or ""
+    arms = re.findall(r'((?:"[A-Z]+"\s*\|\s*)*"[A-Z]+")\s*=>\s*\{([^{}]*(?:\{[^{}]*\}[^{}]*)*)\}', lz, re.S)
+    ks, alld = [], []
+    for pat, body in arms:
+        names = strings_in(pat)
+        if "databases.len()" in body: alld += names
+        elif "expire_due_keys(db)" in body: ks += names
+    per_arg = bool(re.search(r"for\s+arg\s+in\s+args\s*\{\s*self\.expire_if_due\(db,\s*arg\);", lz))
+    out.append("(* engine.rs expire_before_command: every argument is expired lazily; these commands expire the database / all databases first *)")
+    out.append("Definition lazy_expires_every_arg : bool := %s." % ("true" if per_arg else "false"))
+    out.append("Definition lazy_keyspace_commands : list bytes :=\n  %s." % coq_list(ks))
+    out.append("Definition lazy_alldb_commands : list bytes :=\n  %s." % coq_list(alld))
+    pnc = fn_body(server, "process_normal_command") or ""
+    hook = pnc.find("expire_before_command")
+    disp = pnc.find("let result = match command_name.as_str()")
+    out.append("(* server.rs process_normal_command calls expire_before_command before dispatching *)")
+    out.append("Definition lazy_expiry_before_dispatch : bool := %s." % ("true" if 0 <= hook < disp else "false"))
     # ---- Lua sandbox
     lua = read("src/storage/lua_engine.rs")
     removed = []
